@@ -1,15 +1,29 @@
 /-
-  C01, specification side: the default namespace (Selectors-4 §5.3, css-namespaces-3).
+  C01, specification side: the default namespace (Selectors-4 §5.2/§5.3, css-namespaces-3 §3).
 
-  "If a default namespace is declared, compound selectors without type selectors in them still
-  only match elements in that default namespace" — i.e. every compound selector without a type
-  selector stands for the same compound with `*` (no prefix) in front.  Exception (§4.2-4.4): the
-  compound selector representing the SUBJECT of a selector directly inside `:is()`, `:where()`,
-  `:not()` is not affected (unless it has an explicit type / universal selector).
+  The reading `satCss` takes, stated precisely:
+    (a) a default namespace applies to the universal selector that is IMPLIED in every compound
+        selector without a type / universal selector: such a compound stands for the same compound
+        with `*` (no prefix) in front, and `*` without a prefix means "in the default namespace"
+        when one is declared (`matchNamespace`, C12);
+    (b) exception (Selectors-4 §4.2 `:is()`, §4.3 `:not()`, `:where()` likewise): "default namespace
+        declarations do not affect the compound selector representing the SUBJECT of any selector
+        within" these pseudo-classes "unless that compound selector contains an explicit universal
+        selector or type selector".  The non-subject compounds of a complex argument
+        (`.a` in `:is(.a > .b)`) are not exempt;
+    (c) for the arguments of `:has()` the text of the standard is not reproduced here; the reading
+        is a parameter `hasExempt : Bool`: `false` = no exemption at all inside `:has()` (every
+        compound of a relative selector is subject to the default namespace), `true` = the subject
+        (last) compound of each relative selector is exempt exactly as in (b).
+  All theorems of `Properties/C01Ns.lean` hold for both values of `hasExempt`.
 
   `Complex.explicitNs` makes every implied `*` explicit; `satCss` is the meaning CSS gives to a
-  top-level complex selector.  (The parser puts the implied `*` on the LAST compound of a top-level
-  complex selector only: `Complex.withImplied`, `satTop`.)
+  top-level complex selector under reading (a)-(c).  The parser (after repair ccd8955) puts the
+  implied `*` on every compound of a top-level complex selector and on none inside pseudo-class
+  arguments: `Complex.withImplied`, `satTop`.  `Complex.nsAgree` is the syntactic condition under
+  which the two coincide whatever the namespace declarations are: every compound inside a
+  pseudo-class argument that (a)-(c) subject to the default namespace has an explicit type or
+  universal selector.
 
   Mathlib-free and executable.
 -/
@@ -18,10 +32,10 @@ namespace SoupVerif
 namespace Css
 
 mutual
-def Simple.explicitNs : Simple → Simple
-  | .neg L => .neg (explicitSubjects L)
-  | .is L => .is (explicitSubjects L)
-  | .has L => .has (explicitRels L)
+def Simple.explicitNs (h : Bool) : Simple → Simple
+  | .neg L => .neg (explicitSubjects h L)
+  | .is L => .is (explicitSubjects h L)
+  | .has L => .has (explicitRels h L)
   | .id v => .id v
   | .cls v => .cls v
   | .attr ns name test => .attr ns name test
@@ -33,34 +47,72 @@ def Simple.explicitNs : Simple → Simple
   | .firstOfType => .firstOfType
   | .lastOfType => .lastOfType
   | .onlyOfType => .onlyOfType
-def explicitParts : List Simple → List Simple
+def explicitParts (h : Bool) : List Simple → List Simple
   | [] => []
-  | s :: rest => s.explicitNs :: explicitParts rest
+  | s :: rest => s.explicitNs h :: explicitParts h rest
 /-- `implied`: this compound is subject to the default namespace. -/
-def Compound.explicitNs (implied : Bool) : Compound → Compound
+def Compound.explicitNs (h : Bool) (implied : Bool) : Compound → Compound
   | .mk tag parts =>
     .mk (match tag with
          | some t => some t
-         | none => if implied then some ⟨.default, none⟩ else none) (explicitParts parts)
+         | none => if implied then some ⟨.default, none⟩ else none) (explicitParts h parts)
 /-- `subj`: whether the subject (last) compound is subject to the default namespace; all other
     compounds always are. -/
-def Complex.explicitNs (subj : Bool) : Complex → Complex
-  | .one cp => .one (cp.explicitNs subj)
-  | .comb L k R => .comb (L.explicitNs true) k (R.explicitNs subj)
+def Complex.explicitNs (h : Bool) (subj : Bool) : Complex → Complex
+  | .one cp => .one (cp.explicitNs h subj)
+  | .comb L k R => .comb (L.explicitNs h true) k (R.explicitNs h subj)
 /-- Arguments of `:is` / `:not`: subjects exempt. -/
-def explicitSubjects : List Complex → List Complex
+def explicitSubjects (h : Bool) : List Complex → List Complex
   | [] => []
-  | x :: rest => x.explicitNs false :: explicitSubjects rest
-/-- Arguments of `:has`: no exemption. -/
-def explicitRels : List RelSel → List RelSel
+  | x :: rest => x.explicitNs h false :: explicitSubjects h rest
+/-- Arguments of `:has`: subjects exempt iff `h`. -/
+def explicitRels (h : Bool) : List RelSel → List RelSel
   | [] => []
-  | r :: rest => r.explicitNs :: explicitRels rest
-def RelSel.explicitNs : RelSel → RelSel
-  | .mk k x => .mk k (x.explicitNs true)
+  | r :: rest => r.explicitNs h :: explicitRels h rest
+def RelSel.explicitNs (h : Bool) : RelSel → RelSel
+  | .mk k x => .mk k (x.explicitNs h (!h))
 end
 
-/-- The meaning CSS gives to a top-level complex selector under the namespace declarations of `c`. -/
-def satCss (c : Ctx) (l : Loc) (x : Complex) : Bool := sat c l (x.explicitNs true)
+/-- The meaning CSS gives to a top-level complex selector under the namespace declarations of `c`
+    (`hasExempt`: reading (c) above). -/
+def satCss (hasExempt : Bool) (c : Ctx) (l : Loc) (x : Complex) : Bool :=
+  sat c l (x.explicitNs hasExempt true)
+
+/-! ### When the parser's placement is the CSS one, syntactically -/
+
+mutual
+def Simple.nsAgree (h : Bool) : Simple → Bool
+  | .neg L => agreeSubjects h L
+  | .is L => agreeSubjects h L
+  | .has L => agreeRels h L
+  | _ => true
+def agreeParts (h : Bool) : List Simple → Bool
+  | [] => true
+  | s :: rest => s.nsAgree h && agreeParts h rest
+/-- Inside a pseudo-class argument: a compound subject to the default namespace (`implied`) must
+    have an explicit type / universal selector. -/
+def Compound.nsAgreeIn (h : Bool) (implied : Bool) : Compound → Bool
+  | .mk tag parts => (!implied || tag.isSome) && agreeParts h parts
+def Complex.nsAgreeIn (h : Bool) (subj : Bool) : Complex → Bool
+  | .one cp => cp.nsAgreeIn h subj
+  | .comb L _ R => L.nsAgreeIn h true && R.nsAgreeIn h subj
+def agreeSubjects (h : Bool) : List Complex → Bool
+  | [] => true
+  | x :: rest => x.nsAgreeIn h false && agreeSubjects h rest
+def agreeRels (h : Bool) : List RelSel → Bool
+  | [] => true
+  | r :: rest => r.nsAgree h && agreeRels h rest
+def RelSel.nsAgree (h : Bool) : RelSel → Bool
+  | .mk _ x => x.nsAgreeIn h (!h)
+end
+
+/-- Top level: only the pseudo-class arguments matter (the parser implies `*` on the chain). -/
+def Compound.nsAgreeTop (h : Bool) : Compound → Bool
+  | .mk _ parts => agreeParts h parts
+
+def Complex.nsAgree (h : Bool) : Complex → Bool
+  | .one cp => cp.nsAgreeTop h
+  | .comb L _ R => L.nsAgree h && R.nsAgreeTop h
 
 end Css
 end SoupVerif
